@@ -604,6 +604,9 @@ func TestWorker(t *testing.T) {
 		if !spec.Mine(ci) || (spec.Only != "" && !strings.Contains(c.Name(), spec.Only)) {
 			continue
 		}
+		if spec.Property == "C10" && (c.Mode != "exec" || len(c.Program) > 2 || c.MinWait != 0) {
+			continue // C10 part: one sample per executed step, tagged scenario.step, status or failure
+		}
 		if out.OverBudget() {
 			return
 		}
@@ -627,7 +630,7 @@ func TestWorker(t *testing.T) {
 					}
 				}
 			}
-			out.Violate("C15|"+c.Mode+"|"+classify(v.Err)+"|"+reqs, c.Name()+"\n"+v.Err.Error(), c)
+			out.Violate(spec.Property+"|"+c.Mode+"|"+classify(v.Err)+"|"+reqs, c.Name()+"\n"+v.Err.Error(), c)
 		}
 		if ci%1999 == 0 {
 			out.Sample(map[string]any{"cell": c.Name()})
